@@ -10,15 +10,17 @@ def run(ctx):
     ctx.run_space(asan, "step")
     ctx.run_space(asan, "split", ["maxlen=%d" % (300 if ctx.thorough else 128)])
     ctx.run_space(asan, "long", cpu_limit=120)
-    ctx.run_space(plain, "lengths", ["maxlen=%d" % (70000 if ctx.thorough else 9000)], cpu_limit=120)
+    ctx.run_space(asan, "lengths", ["maxlen=%d" % (70000 if ctx.thorough else 9000)], cpu_limit=120)
     ctx.run_space(asan, "selfimage", cpu_limit=120)
+    o0 = build.ensure_explorer("crc_explore", "o0")
+    ctx.run_space(o0, "guard", ["maxlen=%d" % (5000 if ctx.thorough else 600)], cpu_limit=60)
     if ctx.thorough:
         ctx.run_space(plain, "pair", cpu_limit=120)
     ctx.assumptions += ["ref/ref_crc16.c is the bit-at-a-time definition of CRC-16/ARC (reflected 0xA001, init 0, no final xor)"]
     return ctx.finish(
         rule="space 'step': one case per 16-bit state covering all 256 next bytes and the empty buffer (all 2^24 pairs); "
              "space 'split': content family x every length x every alignment 0..15, each with every 2-way split "
-             "(and every 3-way split up to length 48); space 'long': lengths around 2^16, 2^17, 2^20 (thorough 2^24) whole and at 8 split points; space 'lengths': EVERY length 0..9000 (thorough 70000) in one call at every alignment 0..7; space 'selfimage': for all 2^16 states, 8 buffer patterns built from the state's own bytes/complements/zeros x lengths 3..9, whole and split; space 'pair' (thorough): every (state, 2-byte buffer) in one call (2^32). "
+             "(and every 3-way split up to length 48); space 'long': lengths around 2^16, 2^17, 2^20 (thorough 2^24) whole and at 8 split points; space 'lengths': EVERY length 0..9000 (thorough 70000) in one call at every alignment 0..7; space 'guard' (unoptimised build): every length 0..600 (5000) with the data ending at the last readable byte before an inaccessible page, whole and in two pieces; space 'selfimage': for all 2^16 states, 8 buffer patterns built from the state's own bytes/complements/zeros x lengths 3..9, whole and split; space 'pair' (thorough): every (state, 2-byte buffer) in one call (2^32). "
              "non-trivial = distinct (state) resp. (family,length,alignment) with length>0; states = distinct (input,result) triples hashed",
         replay_fn=lambda rep: runner.replay_explorer(rep, quiet=True))
 
